@@ -16,11 +16,12 @@ import (
 // extractors claim the same tag (iframe: twitter, vimeo, youtube), so a dispatch that hands a
 // node to one extractor per tag silently stops recognising the others: their media vanish from
 // the output behind retained text (C08) and are dropped as unknown frames (C19).
-//   D1 the element visitor calls EmbedExtractor.Extract in exactly one place, on the element of
-//      a range loop over a slice held by the converter, and the loop is left only at the end of
-//      the slice or when an extractor answered non-nil;
-//   D2 the constructor stores into that field a list that holds an instance of every type of
-//      the module that implements the extractor interface.
+//
+//	D1 the element visitor calls EmbedExtractor.Extract in exactly one place, on the element of
+//	   a range loop over a slice held by the converter, and the loop is left only at the end of
+//	   the slice or when an extractor answered non-nil;
+//	D2 the constructor stores into that field a list that holds an instance of every type of
+//	   the module that implements the extractor interface.
 func checkExtractorDispatch(p *core.Program, r *core.Report, rule string) {
 	ve, _ := walkHandlers(p, r, rule)
 	if ve == nil {
